@@ -61,6 +61,7 @@ type topoEvent struct {
 	E1    *string                `json:"e1,omitempty"`
 	Bid   *int                   `json:"bid,omitempty"`
 	Dname *string                `json:"dname,omitempty"`
+	Ks    []int                  `json:"ks,omitempty"`
 	Post  *topoState             `json:"post"`
 	Extra map[string]interface{} `json:"extra,omitempty"`
 }
@@ -435,6 +436,12 @@ func runC10(r *evid.Run) {
 		}
 		histories++
 	}
+	// ---- 3b. the command line: lists of external inputs / outputs deleted in one call ---------------
+	cliRuns, ok := c10CommandLine(r, scratch, emit, &nEvents)
+	if !ok {
+		return
+	}
+	r.Set("command_line_list_deletions", cliRuns)
 	tf.Close()
 	r.Set("random_histories", histories)
 	r.Set("trace_events", int64(nEvents))
@@ -478,4 +485,65 @@ func tailStr(s string, n int) string {
 		return s[len(s)-n:]
 	}
 	return s
+}
+
+// c10CommandLine saves a machine with three external inputs and three external outputs bonded to a
+// processor, runs the real `bondmachine -del-outputs <list>` / `-del-inputs <list>` on the file for
+// lists in every order (with repetitions and ids that do not exist), reloads the file and logs the
+// result for BMTopologyTrace (events CliDelOutputs / CliDelInputs).
+func c10CommandLine(r *evid.Run, scratch string, emit func(topoEvent, int), nEvents *int) (int64, bool) {
+	bin, err := buildTool(scratch, "bondmachine")
+	if err != nil {
+		r.Inconclusive("%v", err)
+		return 0, false
+	}
+	lists := [][]int{{0}, {2}, {0, 1}, {1, 0}, {0, 2}, {2, 0}, {1, 2}, {2, 1}, {0, 1, 2}, {2, 1, 0}, {1, 2, 0}, {2, 0, 1}, {1, 1}, {2, 0, 2}, {5, 0}, {0, 5, 1}}
+	var runs int64
+	for _, side := range []string{"outputs", "inputs"} {
+		for _, ks := range lists {
+			bm := newTopoBM([]topoDom{{3, 3}})
+			bm.Add_processor(0)
+			for i := 0; i < 3; i++ {
+				bm.Add_input()
+				bm.Add_output()
+			}
+			// i0 -> p0i1, i1 -> p0i2, i2 -> o1 ; p0o0 -> o2, p0o2 -> o0 : every port has its own partner
+			for _, b := range [][]string{{"p0i1", "i0"}, {"p0i2", "i1"}, {"o1", "i2"}, {"o2", "p0o0"}, {"o0", "p0o2"}} {
+				bm.Add_bond(b)
+			}
+			seg := *nEvents + 1
+			emit(topoEvent{Ev: "set", Post: readTopo(bm)}, seg)
+			dir := filepath.Join(scratch, "cli")
+			os.MkdirAll(dir, 0o755)
+			file := filepath.Join(dir, "bm.json")
+			b, _ := json.Marshal(bm.Jsoner())
+			os.WriteFile(file, b, 0o644)
+			var parts []string
+			for _, k := range ks {
+				parts = append(parts, strconv.Itoa(k))
+			}
+			out, err := runTool(dir, nil, 60*time.Second, bin, "-bondmachine-file", "bm.json", "-del-"+side, strings.Join(parts, ","))
+			if err != nil {
+				r.Violate("command-line:del-"+side+":fails", fmt.Sprintf("bondmachine -del-%s %s fails: %v %s", side, strings.Join(parts, ","), err, tailStr(out, 300)), nil)
+				continue
+			}
+			nb, err := os.ReadFile(file)
+			if err != nil {
+				r.Inconclusive("cannot read back %s: %v", file, err)
+				return runs, false
+			}
+			re, err := loadMachine(nb)
+			if err != nil {
+				r.Violate("command-line:del-"+side+":unloadable", fmt.Sprintf("the file written by bondmachine -del-%s %s cannot be loaded: %v", side, strings.Join(parts, ","), err), nil)
+				continue
+			}
+			name := "CliDelOutputs"
+			if side == "inputs" {
+				name = "CliDelInputs"
+			}
+			emit(topoEvent{Ev: name, Ks: ks, Post: readTopo(re)}, seg)
+			runs++
+		}
+	}
+	return runs, true
 }
